@@ -267,6 +267,72 @@ func (r *Run) reopenRW(cfg Config, st1 *recState, keys []string) {
 	}
 	r.stats.Checks += 4
 	r.probe("reopen_rw_verified")
+	// one more cycle: this session's Close (with CompactL0OnClose flipped, i.e. in half
+	// of the cases an L0 compaction over the tables as this Open ordered them) and the
+	// next Open must still show the model's state
+	r.setPhase("close")
+	err = db3.Close()
+	r.setPhase("")
+	if err != nil {
+		r.db = nil
+		r.violate([]string{"C07", "C38"}, "close-error", "Close of the re-opened database returned %v", err)
+		r.reopenPlain(cfg3)
+		return
+	}
+	r.db = nil
+	r.lastAllocTs = 0
+	if !r.reopenPlain(cfg3) {
+		return
+	}
+	// (the two probe commits above are not part of the model: their keys are compared
+	// with the probe values, all other keys with the model)
+	probed := map[string]string{}
+	for i, pk := range probeKeys {
+		probed[string(pk)] = fmt.Sprintf("<reopen-probe-%d>", i)
+	}
+	var others []string
+	for _, k := range keys {
+		if _, ok := probed[k]; !ok {
+			others = append(others, k)
+		}
+	}
+	allKeys := append(append([]string{}, keys...), "zz-new-key-after-reopen")
+	st4, err := dumpDB(r.db, allKeys)
+	if err != nil {
+		r.violate([]string{"C07"}, "read-after-reopen", "second cycle: %v", err)
+		return
+	}
+	for k, v := range probed {
+		if g := st4.visible[k]; !g.found || string(g.val) != v {
+			r.violate([]string{"C07", "C12"}, "state-after-second-reopen-vs-model", "after the second close/re-open cycle key %q (written after the first re-open with value %s) reads %v", k, v, g)
+			return
+		}
+	}
+	r.mu.Lock()
+	m = r.model
+	r.mu.Unlock()
+	if d := sameVisible(m, st4, others, now()); d != "" {
+		r.violate([]string{"C07", "C12"}, "state-after-second-reopen-vs-model", "after the second close/re-open cycle (CompactL0OnClose=%v in the closed session): %s", cfg3.CompactL0OnClose, d)
+		return
+	}
+	r.probe("reopen_second_cycle_verified")
+}
+
+// reopenPlain opens the database with the given settings into r.db (for tear-down too).
+func (r *Run) reopenPlain(cfg Config) bool {
+	opt := BadgerOptions(&cfg, r.dir, r.vdir)
+	r.setPhase("open")
+	db, err := badger.Open(opt)
+	r.setPhase("")
+	if err != nil {
+		if r.viol == nil {
+			r.violate([]string{"C07"}, "reopen-failed", "Open after a clean Close failed: %v", firstLine(err.Error()))
+		}
+		r.harness = ""
+		return false
+	}
+	r.db = db
+	return true
 }
 
 // ExecuteReopen = Execute + the close/re-open cycle before the final Close.
